@@ -18,7 +18,7 @@ import numpy as np
 import pyerrors as pe
 
 from harness import tlc
-from harness.jsonsafe import rat
+from harness.jsonsafe import rat, ratx
 from harness.pe_project import project_obs
 from harness.writers import openqcd as w_oq, sfcf as w_sf, hadrons as w_hd
 
@@ -327,7 +327,14 @@ def hd5_case(rng, i, tmp, ctx):
     T = int(rng.integers(2, 6))
     configs = {cfg: [complex(val(1, cfg, 2 * t), val(1, cfg, 2 * t + 1)) for t in range(T)] for cfg in cfgs}
     d = os.path.join(tmp, 'hd%d' % i)
-    w_hd.write_meson_hd5(d, 'mes', configs)
+    grow = bool(rng.random() < 0.4)
+    if grow:
+        # the directory as it was while the simulation was still running: read once, then the remaining configurations arrive
+        w_hd.write_meson_hd5(d, 'mes', {cfg: configs[cfg] for cfg in cfgs[:max(2, n // 2)]})
+        quiet(lambda: pe.input.hadrons.read_meson_hd5(d, 'mes', 'ensH', 'meson_0'))
+        w_hd.write_meson_hd5(d, 'mes', {cfg: configs[cfg] for cfg in cfgs[max(2, n // 2):]})
+    else:
+        w_hd.write_meson_hd5(d, 'mes', configs)
     kw, sel = {}, {'k': 'all'}
     if rng.random() < 0.5:
         keep = sorted(rng.choice(n, size=max(5, n - 3) if n > 5 else n, replace=False).tolist())
@@ -339,12 +346,38 @@ def hd5_case(rng, i, tmp, ctx):
         r = quiet(lambda: pe.input.hadrons.read_meson_hd5(d, 'mes', 'ensH', 'meson_0', **kw))
     objs = r if isinstance(r, Exception) else [r.content[t][0] for t in range(r.T)]
     reps = [{'stem': 'mes', 'recs': [{'cfg': cfg, 'p': [[rat(z.real), rat(z.imag)] for z in configs[cfg]]} for cfg in cfgs]}]
-    cid = 'hd5-%04d-n%d-s%d-%s%s' % (i, n, step, sel['k'], '-shuf' if shuffle else '')
+    cid = 'hd5-%04d-n%d-s%d-%s%s%s' % (i, n, step, sel['k'], '-shuf' if shuffle else '', '-grown' if grow else '')
     ctx.nontrivial.add(('hd5', n, step, sel['k'], shuffle))
     return [{'id': cid, 'ev': 'read', 'fmt': 'hd5', 'reps': reps, 'par': {'im': False, 'ens_id': 'ensH'}, 'sel': sel, 'res': res_series(objs)}]
 
 
-MAKERS = [rwms_case, qtop_case, gfms_case, ms5_case, sfcf_case, hd5_case]
+def t0_case(rng, i, tmp, ctx):
+    """fit_t0: the root of the straight line fitted to `fit_range` points on either side of the zero crossing, wherever the crossing lies
+    (also within fit_range points of the end of the measured flow times)"""
+    K = int(rng.integers(8, 16))
+    fr = int(rng.integers(1, 4))
+    xs = [float(np.round(0.1 * (k + 1) * float(rng.choice([1.0, 1.0, 2.5])), 4)) for k in range(K)]
+    xs = sorted(set(xs))
+    K = len(xs)
+    where = str(rng.choice(['middle', 'end', 'end', 'start']))
+    zc = K - int(rng.integers(1, fr + 1)) if where == 'end' else fr if where == 'start' else int(rng.integers(fr, K - fr))
+    zc = min(max(zc, fr), K - 1)
+    troot = 0.5 * (xs[zc - 1] + xs[zc]) + 0.2 * (xs[zc] - xs[zc - 1]) * float(rng.uniform(-1, 1))
+    slope, curv = float(rng.uniform(0.5, 2.0)), float(rng.uniform(0.0, 0.3))
+    d = {}
+    for x in xs:
+        v = slope * (x - troot) + curv * (x - troot) ** 2 * (1 if x > troot else -1)
+        d[x] = pe.pseudo_Obs(v, float(rng.uniform(0.01, 0.05)) * (abs(v) + 0.05), 'flow|r1', samples=30)
+    r = quiet(lambda: pe.input.misc.fit_t0(d, fr))
+    ys = list(d.values())
+    [o.gamma_method() for o in ys]
+    res = {'k': 'exc', 't': type(r).__name__} if isinstance(r, Exception) else {'k': 'ok', 'v': ratx(float(r.value))}
+    ctx.nontrivial.add(('t0', K, fr, where))
+    return [{'id': 't0-%04d-K%d-fr%d-%s' % (i, K, fr, where), 'ev': 'fit_t0', 'fmt': 't0', 'x': [rat(x) for x in xs], 'y': [rat(float(o.value)) for o in ys],
+             'dy': [rat(float(o.dvalue)) for o in ys], 'fr': fr, 'res': res}]
+
+
+MAKERS = [rwms_case, qtop_case, gfms_case, ms5_case, sfcf_case, hd5_case, t0_case]
 
 
 def run(ctx):
